@@ -135,6 +135,18 @@ CLAIMED = {
         "slot/positional provenance over the ast, symbolic evaluation of the conversion helpers, constraint-template coefficients",
         "other",
     ),
+    "C03": (
+        "Decides: the demand schedules are exactly [monthly demand]*d + [0]*(N-d) per nutrient with d the configured shut-off "
+        "delay (symbolic d and N) - zero from the shut-off month on; after every round that ran, total use of the five "
+        "human-edible sources is checked against the RIGHT demand (tuple-slot provenance through four hand-offs) by validators "
+        "that assert demand - used(1-eps) > -1e-6; the round-2 ceilings derive from the same demand, round 2 pins the hand-off "
+        "computed from round 1, round 3 charges round 2's feed/biofuel within (biofuel, feed) demand in the right slots. NOT "
+        "decided: final percent fed vs threshold / no-feed result and 'essentially no feed when people starve' (relations "
+        "between three solver outputs; the code's own guards only print - reported as information).",
+        "Validators active (fat/protein tracking is rejected by the loader); herd feed_used <= offered feed (C07). " + TRUST,
+        "abstract evaluation into run-length lists; positional (tuple-slot) provenance and statement-order analysis over the ast",
+        "other",
+    ),
 }
 
 NOT_APPLICABLE = {
